@@ -34,12 +34,12 @@ Proof. exact design_amps_fix. Qed.
 Print Assumptions C17_redesign_fixpoint_partial.
 
 (* the whole line: export (design (load (export (design x)))) = export (design x), elements and amplifier settings *)
-Theorem C17_redesign_line_fixpoint : forall c s lib sel rgain opsf D0 ptot x L1 outs1,
+Theorem C17_redesign_line_fixpoint : forall c s lib sel rgain rgn opsf D0 ptot x L1 outs1,
   pm_ok s lib -> (c_eol c == 0)%Q -> c_min c <= c_max c -> no_auto (l_els x) -> (forall n, i_name (opsf n) = n) ->
-  design_full c s lib sel rgain opsf D0 ptot x = Ok (L1, outs1) ->
+  design_full c s lib sel rgain rgn opsf D0 ptot x = Ok (L1, outs1) ->
   l_els L1 <> [] -> Forall grid_ok (l_els L1) ->
   has_raman (l_els L1) = false -> NoDup (map o_name outs1) ->
-  exists r2, design_full c s lib sel rgain (ops_of (snd (export_full (L1, outs1)))) D0 ptot
+  exists r2, design_full c s lib sel rgain rgn (ops_of (snd (export_full (L1, outs1)))) D0 ptot
                          (reload_full x (export_full (L1, outs1))) = Ok r2 /\
              export_full r2 = export_full (L1, outs1).
 Proof. exact redesign_line_fixpoint. Qed.
@@ -157,7 +157,7 @@ Print Assumptions C17_params_roundtrip_nli.
 
 (* ---- non-vacuity ---- *)
 Example C17_ex_line_hyps : exists L1 outs1,
-  design_full exl_cfg ex_s ex_lib ex_sel (fun _ => 0%Q) (ops_of []) (-20) (198 # 10) exl_line = Ok (L1, outs1) /\
+  design_full exl_cfg ex_s ex_lib ex_sel (fun _ => 0%Q) (fun _ => 0%Q) (ops_of []) (-20) (198 # 10) exl_line = Ok (L1, outs1) /\
   pm_ok ex_s ex_lib /\ (c_eol exl_cfg == 0)%Q /\ c_min exl_cfg <= c_max exl_cfg /\ no_auto (l_els exl_line) /\
   (forall n, i_name (ops_of [] n) = n) /\
   l_els L1 <> [] /\ Forall grid_ok (l_els L1) /\
